@@ -533,6 +533,11 @@ func (f *frame) applyContractX(fc *FuncContract, args []Val, ptypes []types.Type
 					if cc := v.eng.db.Funcs[ck]; cc != nil && !cc.Assume && len(cc.Of("modifies")) == 0 {
 						ok = true
 						v.callees[ck] = true
+					} else if cc == nil && v.eng.pureByInspection(cfn, 2) {
+						// no contract (e.g. a literal that was turned into a named function): accepted when its
+						// body visibly writes nothing but its own locals and calls only effect-free functions
+						ok = true
+						v.note("%s is passed for a parameter that must be effect-free; it has no contract and was accepted by inspection of its body (its own panic-freedom is not checked)", ck)
 					} else {
 						why = ck + " has no contract, or one with a modifies clause"
 					}
@@ -1055,4 +1060,62 @@ func (f *frame) siteEnv() *TEnv {
 		return TV{}, false
 	}
 	return env
+}
+
+// pureByInspection: the function writes only memory it allocated itself and calls only functions that are
+// effect-free, under a contract without modifies, or pure by the same inspection (to a small depth).
+func (e *Engine) pureByInspection(fn *ssa.Function, depth int) bool {
+	if fn == nil || len(fn.Blocks) == 0 {
+		return false
+	}
+	var local func(v ssa.Value) bool
+	local = func(v ssa.Value) bool {
+		switch x := v.(type) {
+		case *ssa.Alloc:
+			return true
+		case *ssa.FieldAddr:
+			return local(x.X)
+		case *ssa.IndexAddr:
+			return local(x.X)
+		}
+		return false
+	}
+	for _, b := range fn.Blocks {
+		for _, in := range b.Instrs {
+			switch x := in.(type) {
+			case *ssa.Store:
+				if !local(x.Addr) {
+					return false
+				}
+			case *ssa.MapUpdate, *ssa.Send, *ssa.Go, *ssa.Defer, *ssa.Panic:
+				return false
+			case ssa.CallInstruction:
+				c := x.Common()
+				if _, isB := c.Value.(*ssa.Builtin); isB {
+					continue
+				}
+				callee := c.StaticCallee()
+				if callee == nil {
+					if e.effectFree(nil, c) {
+						continue
+					}
+					return false
+				}
+				if e.effectFree(callee, nil) {
+					continue
+				}
+				if cc := e.db.Funcs[e.funcKey(callee)]; cc != nil {
+					if len(cc.Of("modifies")) == 0 {
+						continue
+					}
+					return false
+				}
+				if depth > 0 && e.pureByInspection(callee, depth-1) {
+					continue
+				}
+				return false
+			}
+		}
+	}
+	return true
 }
